@@ -14,6 +14,7 @@ returns what gets multiplied / divided by the unmodified rate parameter:
 from __future__ import annotations
 
 import ast
+import copy
 from dataclasses import dataclass, field
 from typing import Dict, List, Optional, Set, Tuple
 
@@ -28,6 +29,7 @@ class Scalings:
     field_ops: Dict[str, tuple] = field(default_factory=dict)
     per_chart: Optional[bool] = None
     per_chart_why: str = ""
+    per_chart_unknown: str = ""
     undecided: List[str] = field(default_factory=list)
     methods: List[str] = field(default_factory=list)
     rebinds_by: List[tuple] = field(default_factory=list)
@@ -149,10 +151,33 @@ def _interp(ctx, cls: str, q: str, out: Scalings, depth: int, self_is_subject: b
             subject.add(st.targets[0].id)
         return True
 
+    df_alias: Dict[str, ast.AST] = {}       # local bound to <list>.df -> the list expression
+
+    class _Columns(ast.NodeTransformer):
+        """L.df["col"] (also through `f = L.df`) is the column property L.col of a list: both read and store the same frame column"""
+        def visit_Subscript(self, n):
+            n = self.generic_visit(n)
+            if isinstance(n.slice, ast.Constant) and isinstance(n.slice.value, str) and n.slice.value.isidentifier():
+                base = None
+                if isinstance(n.value, ast.Name) and n.value.id in df_alias:
+                    base = copy.deepcopy(df_alias[n.value.id])
+                elif isinstance(n.value, ast.Attribute) and n.value.attr == "df" and attr_chain(n.value.value):
+                    base = n.value.value
+                if base is not None:
+                    return ast.copy_location(ast.Attribute(value=base, attr=n.slice.value, ctx=n.ctx), n)
+            return n
+
     def run(stmts, guard_stack, loopvars):
         for st in stmts:
             if isinstance(st, ast.Expr) and isinstance(st.value, ast.Constant):
                 continue
+            if isinstance(st, ast.Assign) and len(st.targets) == 1 and isinstance(st.targets[0], ast.Name) and isinstance(st.value, ast.Attribute) and \
+                    st.value.attr == "df" and attr_chain(st.value.value) and attr_chain(st.value.value)[0] in subject and \
+                    sum(1 for x in ast.walk(fn.node) if isinstance(x, ast.Name) and x.id == st.targets[0].id and isinstance(x.ctx, ast.Store)) == 1:
+                df_alias[st.targets[0].id] = st.value.value
+                continue
+            if isinstance(st, (ast.Assign, ast.AugAssign)) and any(isinstance(x, ast.Subscript) for x in ast.walk(st)):
+                st = ast.fix_missing_locations(_Columns().visit(copy.deepcopy(st)))
             if isinstance(st, (ast.Return, ast.Assign)) and replace_call(st):
                 continue
             if isinstance(st, (ast.Assign, ast.AugAssign)):
@@ -253,6 +278,12 @@ def _interp(ctx, cls: str, q: str, out: Scalings, depth: int, self_is_subject: b
                 continue
             if isinstance(st, (ast.With, ast.Try)):
                 run(getattr(st, "body", []), guard_stack, loopvars)
+                continue
+            # charts rated one by one in a statement of another shape: whether every chart of the result is one of them is not modelled
+            if any(isinstance(x, ast.Call) and call_name(x) == "rate" and isinstance(x.func, ast.Attribute) and isinstance(x.func.value, ast.Name) and
+                   x.func.value.id not in subject | {"self"} and not (isinstance(x.func.value, ast.Call)) for x in ast.walk(st)) and \
+                    M.class_kind(cls) == "mapset":
+                out.per_chart_unknown = f"{where}: {unparse(st)[:80]}"
                 continue
             # anything else that mentions the rate parameter is not modelled
             if any(isinstance(x, ast.Name) and x.id == by for x in ast.walk(st)):
